@@ -15,6 +15,8 @@ import Mqtt.V5.Decode
 import Mqtt.V5.Poll
 import Mqtt.V5.Text
 import Mqtt.IO
+import Spec.DecodeV3
+import Spec.DecodeV5
 
 namespace Mqtt.Driver
 open Mqtt
@@ -266,7 +268,12 @@ def v3Valid (debug : Bool) (toks : List String) : String :=
         | .ok q rest => q.show == p.show && rest == [0xc0]
         | _ => false
       | _ => false
-    s!"valid={b01 p.valid} rt={b01 rt}"
+    let sp := match p.encode debug with
+      | .ok vb => match Spec.decodeV3 (vb.asRef ++ [0xc0]) with
+        | some (q, t) => q.show == p.show && t == vb.asRef.length
+        | none => false
+      | _ => false
+    s!"valid={b01 p.valid} rt={b01 rt} spec={b01 sp}"
   | .unconstructible w => s!"unconstructible {w}"
   | .syntax => "bad-op"
 
@@ -281,7 +288,12 @@ def v5Valid (debug : Bool) (toks : List String) : String :=
         | .ok q rest => q.show == p.show && rest == [0xc0]
         | _ => false
       | _ => false
-    s!"valid={b01 (p.valid && fits)} rt={b01 rt}"
+    let sp := match p.encode debug with
+      | .ok vb => match Spec.decodeV5 (vb.asRef ++ [0xc0]) with
+        | some (q, t) => q.show == p.show && t == vb.asRef.length
+        | none => false
+      | _ => false
+    s!"valid={b01 (p.valid && fits)} rt={b01 rt} spec={b01 sp}"
   | .unconstructible w => s!"unconstructible {w}"
   | .syntax => "bad-op"
 
@@ -318,6 +330,36 @@ def opEnca (debug : Bool) (fam sink : String) (toks : List String) : String :=
       | .unconstructible w => s!"unconstructible {w}"
       | .syntax => "bad-op"
 
+/-- `spec <fam> <hex>`: the verdict of the independent specification decoder on a frame,
+in the format of the implementation's strict (poll) decoder: `accept <total> <packet>` or
+`reject`.  For frames with a non-minimally encoded variable byte integer (outside C04's
+quantifier: the strict Spec rejects, the tolerant one accepts) the model's own verdict is
+echoed, so that a difference between the two sides of the correspondence always means
+"implementation and specification disagree on a minimally encoded frame" (or model ≠ code). -/
+def opSpecV3 (debug : Bool) (bs : Bytes) : String :=
+  let model := match (Poll.spec (V3.pollFamily debug) bs .eof).1 with
+    | .ok t _ p => s!"accept {t} {p.show}"
+    | .err _ => "reject"
+    | .panic s => s!"panic[{s}]"
+  match Spec.decodeV3 bs with
+  | some (p, t) => s!"accept {t} {p.show}"
+  | none =>
+    match Spec.decodeV3Loose bs with
+    | some _ => model
+    | none => "reject"
+
+def opSpecV5 (debug : Bool) (bs : Bytes) : String :=
+  let model := match (Poll.spec (V5.pollFamily debug) bs .eof).1 with
+    | .ok t _ p => s!"accept {t} {p.show}"
+    | .err _ => "reject"
+    | .panic s => s!"panic[{s}]"
+  match Spec.decodeV5 bs with
+  | some (p, t) => s!"accept {t} {p.show}"
+  | none =>
+    match Spec.decodeV5Loose bs with
+    | some _ => model
+    | none => "reject"
+
 def withHex (h : String) (f : Bytes → String) : String :=
   match bytesOfHex h with
   | some bs => f bs
@@ -349,6 +391,8 @@ def stepRaw (debug : Bool) (line : String) : String :=
   | "enca" :: fam :: sink :: toks => opEnca debug fam sink toks
   | "valid" :: "v3" :: toks => v3Valid debug toks
   | "valid" :: "v5" :: toks => v5Valid debug toks
+  | ["spec", "v3", h] => withHex h (opSpecV3 debug)
+  | ["spec", "v5", h] => withHex h (opSpecV5 debug)
   | ["dec", "v5", h] => withHex h (v5Dec debug)
   | ["deca", "v5", h, t] => match parseTerm5 t with
     | some t => withHex h fun bs => v5ShowOut (V5.runAsync (V5.decodeAsync debug) bs t)
